@@ -200,7 +200,7 @@ def run(ctx):
             exhaustive = False
             break
         cases = enum(A, K, syms, exact)
-        if rate and len(cases) > 1500 and len(cases) / rate * 1.3 > ctx.deadline.left() - 25:      # would not finish
+        if rate and len(cases) > 1500 and len(cases) / rate * 2.0 > ctx.deadline.left() - 25:      # would not finish
             exhaustive = False
             break
         t_b = time.time()
